@@ -45,9 +45,9 @@ def parse_line(l, real):
     return {'kind': m.group(1), 'choices': m.group(2), 'picks': m.group(3), 'tags': m.group(4), 'outs': m.group(5),
             'next': int(m.group(6)), 'counts': m.group(7), 'reasons': m.group(8), 'verdict': sort_verdict(v), 'unfinished': unfinished}
 
-def run_real(text, cap, nrandom, seed, stress=0):
+def run_real(text, cap, nrandom, seed, stress=0, exe=None):
     env = dict(os.environ, SCHED_CAP=str(cap), SCHED_RANDOM=str(nrandom), VERIF_SEED=str(seed), SCHED_STRESS=str(stress))
-    p = subprocess.run([SCHED], input=text, capture_output=True, text=True, env=env, timeout=3000)
+    p = subprocess.run([exe or SCHED], input=text, capture_output=True, text=True, env=env, timeout=3000)
     if p.returncode != 0:
         raise RuntimeError(f"sched exited {p.returncode}: {p.stderr[-1500:]}")
     return canon.split_scenarios(p.stdout)
